@@ -133,6 +133,23 @@ CLAIMED = {
              'execution (they are not modelled beyond found / not found).',
         technique='Coq proof by induction on hints (explanation path finds a cause iff needed; causes are genuine) + shared-core generator proof + differential correspondence incl. direct invocation of the error path',
         design='5/C03'),
+    'C20': dict(
+        text='Machine-checked (Coq 8.16.1): a model of beartype.bite.infer_hint (default strategy) over the object '
+             'universe of the shared core - scalars, classes, instances, every container and mapping class classified '
+             'by the regenerated table (builtin factories, the collections.abc finite state machine, Annotated[..., '
+             'IsInstance[cls]] wrapping), item / key / value unions, the fixed-tuple rule for short root tuples - is '
+             'proved, by induction on objects of any nesting and item mix, to produce a hint the object satisfies at '
+             'full depth, hence one is_bearable accepts for every draw; the coherence of the regenerated '
+             'classification is a proof obligation (it is what the dict.items() defect F22 broke); the necessary '
+             'restriction to integer Counter counts is machine-refuted otherwise (F20). On every run the real inferred '
+             'hints are read back into the grammar and compared with the model\'s modulo union order, together with '
+             'is_bearable and a Python full-depth judgement; self-referential containers (F21) are decided on the '
+             'implementation alone.',
+        note='Trusted: Coq kernel; infertable.py translator (fail-closed: unknown factories are FUnknown, on which the '
+             'model refuses); the read-back of inferred hints; callables, third-party objects, list subclasses and '
+             'cyclic objects are outside the model. All theorems closed under the global context.',
+        technique='Coq proof by induction on objects (inferred hint is satisfied at full depth) over a translator-regenerated classification table + shared-core soundness + differential correspondence with read-back of real inferred hints',
+        design='5/C20'),
     'C04': dict(
         text='Machine-checked (Coq 8.16.1): for every signature over the five parameter kinds with pairwise '
              'distinct names and every call that CPython\'s binding rule accepts, the values selected by the '
